@@ -334,7 +334,10 @@ def case_for(run: cs.Run, name: str) -> tuple[fw.Case | None, str | None]:
     its = cq.clist(items)
     call = f'replay {hc} {hu} {lc_term(run.scenario["cfg"])} {T} 0 {init} {its}'
     term = f'match fst ({call}) with None => true | Some _ => false end'
-    return fw.Case(term, {'scenario': run.scenario, 'object': name, 'items': items}, diag=f'(fst ({call}), w_srv (snd ({call})), w_mem (snd ({call})))'), None
+    case = fw.Case(term, {'scenario': run.scenario, 'object': name, 'items': items}, diag=f'(fst ({call}), w_srv (snd ({call})), w_mem (snd ({call})))')
+    # how many states of this history satisfy the hypothesis of the liveness theorem (Proofs/CycleCalm.v: calmb, sound for calm)
+    case.extra['calm_term'] = f'calm_hits {hc} {hu} {lc_term(run.scenario["cfg"])} {T} {init} {its}'
+    return case, None
 
 
 def run_scenario(sc: dict) -> cs.Run:
